@@ -62,10 +62,11 @@ class T(TV):
 
 
 class Mp(TV):
-    __slots__ = ("items",)
+    """map; intkeys: the metamodel key type is `integer` (JSON keys are their decimal text, Python keys are ints)"""
+    __slots__ = ("items", "intkeys")
 
-    def __init__(self, items: Dict[str, TV]):
-        self.items = items
+    def __init__(self, items: Dict[str, TV], intkeys: bool = False):
+        self.items, self.intkeys = items, intkeys
 
 
 class U(TV):
@@ -92,7 +93,7 @@ def to_json(tv: TV) -> Any:
     if isinstance(tv, T):
         return ["T", [to_json(x) for x in tv.items]]
     if isinstance(tv, Mp):
-        return ["M", {k: to_json(v) for k, v in tv.items.items()}]
+        return ["M", {k: to_json(v) for k, v in tv.items.items()}, tv.intkeys]
     if isinstance(tv, U):
         return ["U", tv.occ, tv.idx, tv.n, to_json(tv.child)]
     if isinstance(tv, N):
@@ -113,7 +114,7 @@ def from_json(j: Any) -> TV:
     if tag == "T":
         return T([from_json(x) for x in j[1]])
     if tag == "M":
-        return Mp({k: from_json(v) for k, v in j[1].items()})
+        return Mp({k: from_json(v) for k, v in j[1].items()}, bool(j[2]) if len(j) > 2 else False)
     if tag == "U":
         return U(j[1], j[2], j[3], from_json(j[4]))
     if tag == "N":
@@ -486,7 +487,9 @@ class Gen:
             keys = self.draw(
                 st.lists(self.map_key(t["key"]), min_size=1 if forced else 0, max_size=2 if depth < 3 else 1, unique=True)
             )
-            return Mp({key: self.type(t["value"], vl, depth + 1, cri if i == 0 else None) for i, key in enumerate(keys)})
+            kt = self.m.resolve_alias(t["key"])
+            return Mp({key: self.type(t["value"], vl, depth + 1, cri if i == 0 else None) for i, key in enumerate(keys)},
+                      intkeys=(kt["kind"] == "base" and kt["name"] == "integer"))
         if k == "tuple":
             return T([self.type(it, f"{locus}|{i}", depth + 1, self._next(ri, f"{locus}|{i}")) for i, it in enumerate(t["items"])])
         if k == "or":
